@@ -154,10 +154,15 @@ func paramDecremented() paramMigrator {
 // migrates the by_spaces param used by several string tokenizing functions
 func paramBySpaces() paramMigrator {
 	return func(param string) string {
-		if strings.TrimSpace(strings.ToLower(param)) == "true" {
+		switch strings.TrimSpace(strings.ToLower(param)) {
+		case "true":
 			return `" \t"`
+		case "false":
+			return `NULL`
 		}
-		return `NULL`
+
+		// if not a literal then it has to be decided when the expression is evaluated
+		return fmt.Sprintf(`if(%s, " \t", NULL)`, param)
 	}
 }
 
